@@ -318,7 +318,7 @@ func checkC15(c *Ctx) {
 	c.Transitions = int64(tr1 + tr2)
 	c.Traces = int64(tr1 + tr2)
 	c.Exhaustive = true
-	c.Rule = "(a) sweeps: DumbMemory with lengths {0,1,2,255,256,257,32768,65535,65536} x every one of the 65536 addresses, DumbIO with lengths {0,1,128,255,256,257} x every port, MapMemory x every address: fresh read = default, write-then-read, neighbours untouched, out-of-range read 0 / write ignored, no panic; DumbMemory.Put with data that is a window of the same memory, every overlap of source and destination of 1..8 bytes at both ends of the slice; the zero-value MapMemory (Get, Clone, write the clone, Clear). (b) explicit-state BFS to closure over {Get, Set, Put (in-range blocks for DumbMemory, wrapping blocks for MapMemory), Clone + mutate clone / mutate original, Clear, Equal(equal clone / differing clone / value stored equal to the default / nil and arguments that are no map at all: false; other representations of the same contents such as a pointer to a MapMemory: only no panic), In, Out} with addresses {0,1,2,len-1,len,FFFE,FFFF} and values {00,C7,FF}; every transition calls the real method and the map model in lock-step and compares all observable addresses; canonical state key = stored contents (key set and values). Non-trivial = in-range writes and all BFS transitions (counted)."
+	c.Rule = "(a) sweeps: DumbMemory with lengths {0,1,2,255,256,257,32768,65535,65536} x every one of the 65536 addresses, DumbIO with lengths {0,1,128,255,256,257} x every port, MapMemory x every address: fresh read = default, write-then-read, neighbours untouched, out-of-range read 0 / write ignored, no panic; DumbMemory.Put with data that is a window of the same memory, every overlap of source and destination of 1..8 bytes at both ends of the slice; the zero-value MapMemory (Get, Clone, write the clone, Clear). (b) explicit-state BFS to closure over {Get, Set, Put (in-range blocks for DumbMemory, wrapping blocks for MapMemory), Clone + mutate clone / mutate original, Clear (also observed through a second variable holding the same map), Equal(equal clone / differing clone / value stored equal to the default / nil and arguments that are no map at all: false; other representations of the same contents such as a pointer to a MapMemory: only no panic), In, Out} with addresses {0,1,2,len-1,len,FFFE,FFFF} and values {00,C7,FF}; every transition calls the real method and the map model in lock-step and compares all observable addresses; canonical state key = stored contents (key set and values). Non-trivial = in-range writes and all BFS transitions (counted)."
 	c.Bound = "complete sweeps; BFS to closure"
 	c.Set("bfs_states_mapmemory", st1)
 	c.Set("bfs_transitions_mapmemory", tr1)
@@ -415,11 +415,17 @@ func c15BFSMap(c *Ctx) (int, int) {
 			}
 		}
 		succs = append(succs, succ{"Clear", func(mm z80.MapMemory, model c15MapState) (z80.MapMemory, bool) {
+			// another holder of the same map (cpu.Memory = mm): Clear empties the map, not just this variable
+			other := mm
 			mm.Clear()
 			for k := range model {
 				delete(model, k)
 			}
-			return mm, true
+			ok := len(other) == 0 && other.Get(0x0000) == 0xC7 && other.Get(0xFFFF) == 0xC7
+			mm.Set(0x4242, 0x24)
+			ok = ok && other.Get(0x4242) == 0x24
+			delete(mm, 0x4242)
+			return mm, ok
 		}})
 		succs = append(succs, succ{"Clone; mutate clone; mutate original; Equal", func(mm z80.MapMemory, model c15MapState) (z80.MapMemory, bool) {
 			cl := mm.Clone()
